@@ -2556,6 +2556,11 @@ M('C07', 'attrs-truthiness-compared', DE, "            if getattr(key, attr) != 
 M('C07', 'call-check-only-with-identity', DE, "                self.check_attributes(key)\n", "                if kwargs.get('user') is not None:\n                    self.check_attributes(key)\n", 'C07.5')
 M('C07', 'call-check-only-when-subkey-selected', DE, "                self.check_attributes(key)\n", "                if _key is not key:\n                    self.check_attributes(key)\n", 'C07.5')
 M('C07', 'call-unguarded-fast-path', DE, "    def __call__(self, action):\n", "    def __call__(self, action):\n        if not self.conditions:\n            return action\n\n", 'C07.5')
+# --- wave 5: export order produced by a generator helper (canon fuses the loop over it)
+_W5_EXP = "        _bytes = bytearray()\n        # us\n        _bytes += self._key.__bytearray__()\n        # our signatures; ignore embedded signatures\n        for sig in iter(s for s in self._signatures if not s.embedded and s.exportable):\n            _bytes += sig.__bytearray__()\n        # one or more User IDs, followed by their signatures\n        for uid in self._uids:\n            _bytes += uid._uid.__bytearray__()\n            for s in [s for s in uid._signatures if s.exportable]:\n                _bytes += s.__bytearray__()\n        # subkeys\n        for sk in self._children.values():\n            _bytes += sk.__bytearray__()\n\n        return _bytes\n"
+_W5_GEN = "        _bytes = bytearray()\n        for component in self._export_sequence():\n            _bytes += component.__bytearray__()\n        return _bytes\n\n    def _export_sequence(self):\n        yield self._key\n        for sig in self._signatures:\n            if not sig.embedded and sig.exportable:\n                yield sig\n        for uid in self._uids:\n            yield uid._uid\n            yield from [s for s in uid._signatures if s.exportable]\n        for subkey in self._children.values():\n            yield subkey\n"
+T('C07', 'twin-export-generator-helper', PGP, _W5_EXP, _W5_GEN)
+M('C07', 'export-generator-adds-keymaterial', PGP, _W5_EXP, _W5_GEN.replace("        yield self._key\n", "        yield self._key\n        yield self._key.keymaterial\n"), 'C07.6')
 # --- wave 3: width recomputed on copy, opaque / wholesale copies into the public packet (C07.7 incl. the shared serialised-attribute rule)
 _W3_ECP = "        pk = self.__class__()\n        pk.bytelen = self.bytelen\n        pk.format = self.format\n        pk.x = copy.copy(self.x)\n        pk.y = copy.copy(self.y)"
 M('C07', 'ecpoint-copy-width-recomputed', FL, _W3_ECP, "        pk = self.__class__()\n        pk.bytelen = (max(self.x.bit_length(), self.y.bit_length()) + 7) // 8\n        pk.format = self.format\n        pk.x = copy.copy(self.x)\n        pk.y = copy.copy(self.y)", 'C07.7')
